@@ -15,7 +15,7 @@ inductive V where
   | num (q : Rat)
   | rest (q : Rat)          -- `Rest(q)`
   | str (s : String)
-  | scale (l : List Int)    -- `Scale(l)` over 12-ET
+  | scale (l : List Int) (spo : Nat)   -- `Scale(l, Tuning.et(spo))`: degrees, steps per octave (ratio 2)
   | bool (b : Bool)
   | none                    -- `None`
 deriving Repr, Inhabited, BEq
@@ -67,39 +67,44 @@ def Ev.numD (e : Ev) (k : String) (dflt : Rat) : Option Rat :=
 
 def majorScale : List Int := [0, 2, 4, 5, 7, 9, 11]
 
-def Ev.scaleOf (e : Ev) : Option (List Int) :=
+/-- The scale of the event and the steps per octave of its tuning (default: major, 12-ET). -/
+def Ev.scaleOf (e : Ev) : Option (List Int × Nat) :=
   match e.get? "scale" with
-  | some (.scale l) => some l
+  | some (.scale l spo) => some (l, spo)
   | some _ => Option.none
-  | Option.none => some majorScale
+  | Option.none => some (majorScale, 12)
 
-/-- `Scale.degree_to_key` over 12-ET: `12 * (degree // len) + scale[int(degree) % len]`. -/
-def degreeToKey (scale : List Int) (d : Rat) : Option Rat :=
+/-- `Scale.degree_to_key`: `spo * (degree // len) + scale[int(degree) % len]` (in tuning steps). -/
+def degreeToKey (scale : List Int) (spo : Nat) (d : Rat) : Option Rat :=
   if scale.isEmpty then Option.none else
   let l : Int := scale.length
   let idx := (Int.fmod (if d < 0 then -((-d).floor) else d.floor) l).toNat
   match scale[idx]? with
-  | some s => some (12 * ((d / (l : Rat)).floor : Rat) + (s : Rat))
+  | some s => some ((spo : Rat) * ((d / (l : Rat)).floor : Rat) + (s : Rat))
   | Option.none => Option.none
 
-/-- `_midinote_from_degree` (12-ET: `spo = 12`, `12 * log2(octave_ratio) = 12`). -/
+/-- `_midinote_from_degree`: key, gtranspose and root are in steps of the tuning (`spo` per octave);
+    octave ratio 2, so `12 * log2(octave_ratio) = 12`. A tuning without steps divides by zero. -/
 def Ev.midinoteFromDegree (e : Ev) : Option Rat := do
-  let scale ← e.scaleOf
+  let (scale, spo) ← e.scaleOf
   let degree ← e.numD "degree" 0
   let mtr ← e.numD "mtranspose" 0
-  let key ← degreeToKey scale (degree + mtr)
+  let key ← degreeToKey scale spo (degree + mtr)
   let gtr ← e.numD "gtranspose" 0
   let root ← e.numD "root" 0
   let oct ← e.numD "octave" 5
-  some (((key + gtr + root) / 12 + oct - 5) * 12 + 60)
+  if spo == 0 then Option.none else
+  some (((key + gtr + root) / (spo : Rat) + oct - 5) * 12 + 60)
 
 /-- `_midi_from_note`. -/
 def Ev.midinoteFromNote (e : Ev) : Option Rat := do
   let note ← (e.get? "note").bind V.num?
   let gtr ← e.numD "gtranspose" 0
   let root ← e.numD "root" 0
+  let (_, spo) ← e.scaleOf
   let oct ← e.numD "octave" 5
-  some (((note + gtr + root) / 12 + oct - 5) * 12 + 60)
+  if spo == 0 then Option.none else
+  some (((note + gtr + root) / (spo : Rat) + oct - 5) * 12 + 60)
 
 /-- `e('midinote')` when `freq` is not consulted (an explicit `midinote`, `note` or `degree`). -/
 def Ev.midinoteNoFreq (e : Ev) : Option Sym :=
@@ -267,7 +272,7 @@ def Ev.sendGate (e : Ev) (hasGate : Bool) : Bool :=
   | some (.num q) => q != 0
   | some (.rest q) => q != 0
   | some (.str s) => s != ""
-  | some (.scale l) => !l.isEmpty
+  | some (.scale l _) => !l.isEmpty
   | some .none => false
   | Option.none => hasGate
 
